@@ -1,7 +1,8 @@
 (* C28 - lemmas over Model/C28Tracked.v (for every wrapped-method table [wr]) and their instances for the tables
    generated from /repo (Model/C28Wrapped.v, Gen/Mutators.v). *)
+From Coq Require Import ZArith List Bool Lia ZifyBool.
 Require Import PonyV.Base.PyBase PonyV.Base.Seg PonyV.Model.C28Tracked PonyV.Gen.Mutators PonyV.Model.C28Wrapped.
-From Coq Require Import ZifyBool.
+#[local] Open Scope Z_scope.
 
 (* ------------------------------------------------------------------ induction principle for the nested type jv *)
 Section JvInd.
@@ -468,6 +469,7 @@ End WithWr.
 
 (* ------------------------------------------------------------------ instances for the tables generated from /repo *)
 From Coq Require String.
+#[local] Open Scope Z_scope.
 
 Definition known_bad_act (a : act) : bool :=
   match a with
